@@ -86,6 +86,8 @@ type rCfg struct {
 	Args            string `json:"args"`
 	FileStages      int    `json:"file_stages"`
 	TeardownFail    bool   `json:"teardown_fail"` // a cleanup registered by the setup fails when the run is over
+	StepAtUs        int64  `json:"step_at_us"`    // staged step profile: 0 until this instant of the profile, step_val from then on
+	StepVal         int64  `json:"step_val"`
 }
 
 type rTrace struct {
@@ -1046,6 +1048,26 @@ func buildCases(c *ctx) []rCase {
 		rc.cfg.StallUs = iv*1000*2 + iv*1000*int64(1+c.rng.Intn(8))/10 // 2.1 .. 2.8 intervals
 		rc.bodyMaxUs = 2000
 		add(rc)
+	}
+	// a staged STEP profile (0 for 400 ms, then 40 per tick) with the trigger goroutine stalled for 500 ms early on: the
+	// profile follows real time - once the stall is over (and the one tick that was already waiting has been served) it
+	// is past its step, both through the API and through the command line
+	for _, viaCmd := range []bool{false, true} {
+		rs := rCase{cfg: rCfg{Name: "staged-step-stalled", Mode: "staged", RateMode: true, Conc: 50, MaxDurUs: 1200 * ms, IntervalUs: 20 * ms,
+			Args: "0s:0,400ms:0,0s:40,3s:40", StallEval: 2, StallUs: 500 * ms, StepAtUs: 400 * ms, StepVal: 40},
+			build: func(w func(api.RateFunction) api.RateFunction) (*api.Trigger, error) {
+				r, err := staged.CalculateStagedRate(0, 20*time.Millisecond, "0s:0,400ms:0,0s:40,3s:40", "none", nil)
+				if err != nil {
+					return nil, err
+				}
+				return rateTrigger(r, w), nil
+			}}
+		if viaCmd {
+			rs.cfg.Name = "cli-" + rs.cfg.Name
+			rs.cfg.WaitUs = 10_000 * ms
+			rs.cli = []string{"staged", "--stages", "0s:0,400ms:0,0s:40,3s:40", "--iterationFrequency", "20ms", "--distribution", "none"}
+		}
+		add(rs)
 	}
 	// a configured rate (scripted, with zeros) spread over sub-ticks: the CONFIGURED rate is still evaluated at most
 	// once per configured interval - the sub-tick function must not come back for more
